@@ -7,7 +7,7 @@
    trees against `denote` inside Coq. *)
 From Coq Require Import ZArith List Bool.
 Import ListNotations.
-Require Import Amoco.Exp.Sem Amoco.Exp.Cst Amoco.Exp.CstProofs Amoco.Exp.Eval Amoco.Exp.EvalProofs Amoco.Exp.Rules Amoco.Exp.RulesProofs Amoco.Exp.Rules2 Amoco.Exp.Rules2Proofs.
+Require Import Amoco.Exp.Sem Amoco.Exp.Cst Amoco.Exp.CstProofs Amoco.Exp.Eval Amoco.Exp.EvalProofs Amoco.Exp.Rules Amoco.Exp.RulesProofs Amoco.Exp.Rules2 Amoco.Exp.Rules2Proofs Amoco.Exp.RulesWf.
 Open Scope Z_scope.
 
 (* --- constant folding: every cst operator, every width, any sign flags on the operands --- *)
@@ -93,6 +93,12 @@ Theorem C01_rewrite_chains_preserve : forall e e', rewrites e e' ->
   esize e' = esize e /\ forall env d, denote env e = Some d -> denote env e' = Some d.
 Proof. exact rewrites_preserve. Qed.
 Print Assumptions C01_rewrite_chains_preserve.
+
+(* ... and since every rule also keeps well-sizedness, a chain starting from a well-sized node needs no side condition at all *)
+Theorem C01_rewrite_chains_from_well_sized : forall e e', wf e = true -> rewrites0 e e' ->
+  wf e' = true /\ esize e' = esize e /\ forall env d, denote env e = Some d -> denote env e' = Some d.
+Proof. intros e e' W H. destruct (rewrites0_preserve e e' W H) as [W' [S D]]. auto. Qed.
+Print Assumptions C01_rewrite_chains_from_well_sized.
 
 (* the "x op x" rule fires on operands whose PRINTED forms agree; it is sound when the operands are identical ... *)
 Theorem C01_same_operand_rule_sound : forall e e', wf e = true -> r2_same e = Some e' -> operands_identical e = true ->
